@@ -31,6 +31,7 @@ public:
   void SetRaw(std::string_view ref);
   void InitFrom(std::string_view ref, const EntityTermContext& cntxt);
   void UpdateFrom(const EntityTermContext& cntxt);
+  void DropResolved() noexcept;
 
   void TranslateRaw(const StrTranslator& old2New);
   void TranslateRefs(const StrTranslator& old2New, const EntityTermContext& cntxt);
